@@ -13,6 +13,9 @@ SPECS = os.path.join(ROOT, "specs")
 WORK = os.path.join(ROOT, "work")
 HARNESS = os.path.join(ROOT, "harness")
 VH = os.path.join(HARNESS, "target", "release", "vh")
+# the same harness sources built against des without the `cqueue` feature (BinaryHeap event set): suites rt / net / asyncm
+HARNESS_HEAP = os.path.join(os.path.dirname(HARNESS), "harness_heap")
+VHH = os.path.join(HARNESS_HEAP, "target", "release", "vhh")
 NCPU = min(16, os.cpu_count() or 4)
 
 
@@ -57,6 +60,26 @@ def build_harness():
         raise ToolError("cargo build of the harness failed")
     log(f"[build] harness built in {time.time() - t0:.1f}s")
     _built = True
+
+
+_built_heap = False
+
+
+def build_harness_heap():
+    """(Re)build the heap-backend harness (des without the `cqueue` feature) against /repo's current working tree."""
+    global _built_heap
+    if _built_heap:
+        return
+    env = dict(os.environ)
+    env["CARGO_NET_OFFLINE"] = "true"
+    t0 = time.time()
+    p = subprocess.run(["cargo", "build", "--release", "--offline", "-q"], cwd=HARNESS_HEAP, env=env,
+                       stdout=subprocess.PIPE, stderr=subprocess.STDOUT, text=True)
+    if p.returncode != 0:
+        sys.stdout.write(p.stdout[-6000:])
+        raise ToolError("cargo build of the heap-backend harness failed")
+    log(f"[build] heap-backend harness built in {time.time() - t0:.1f}s")
+    _built_heap = True
 
 
 # ---------------------------------------------------------------- TLC
@@ -192,14 +215,14 @@ def shard_lines(src_path, wd, n, prefix="shard"):
     return paths, total
 
 
-def run_vh_parallel(arg_lists, timeout=3600):
+def run_vh_parallel(arg_lists, timeout=3600, binary=None):
     """Run several vh processes concurrently. Each must print one JSON summary as its last stdout line.
 
     Returns a list of dicts; a crashed worker yields {"crash": rc, "stderr": ...}.
     """
     procs = []
     for args in arg_lists:
-        procs.append(subprocess.Popen([VH] + args, stdout=subprocess.PIPE, stderr=subprocess.PIPE, text=True))
+        procs.append(subprocess.Popen([binary or VH] + args, stdout=subprocess.PIPE, stderr=subprocess.PIPE, text=True))
     out = []
     deadline = time.time() + timeout
     for args, p in zip(arg_lists, procs):
@@ -227,7 +250,7 @@ def run_vh_parallel(arg_lists, timeout=3600):
     for i, (args, o) in enumerate(zip(arg_lists, out)):
         if isinstance(o, dict) and "hang" in o and "--hang-secs" not in args:
             try:
-                r = subprocess.run([VH] + args + ["--hang-secs", "60"], stdout=subprocess.PIPE, stderr=subprocess.PIPE, text=True,
+                r = subprocess.run([binary or VH] + args + ["--hang-secs", "60"], stdout=subprocess.PIPE, stderr=subprocess.PIPE, text=True,
                                    timeout=timeout)
                 lines = [ln for ln in r.stdout.splitlines() if ln.strip()]
                 again = json.loads(lines[-1]) if r.returncode == 0 and lines else None
